@@ -8,7 +8,7 @@
 * quantified facts are kept as python functions key -> formula ("pointwise facts") and are
   instantiated on every key term of the path, so every SMT query is quantifier free.
 """
-import ast, os, z3
+import os, sys, ast, os, z3
 from . import front
 from .vals import *
 
@@ -389,6 +389,9 @@ class Interp:
             return d
         ok = [i for i in range(nalts) if feas(i)]
         if not ok:
+            self.log.append("infeasible at %s:%s" % getattr(self, "_cur_stmt", ("?", "?")))
+            if os.environ.get("VERIF_DEBUG"):
+                print("infeasible at %s:%s" % getattr(self, "_cur_stmt", ("?", "?")), file=sys.stderr)
             raise PathEnd("infeasible")
         d = ok[0]
         self.dec.append(d)
@@ -590,6 +593,7 @@ class Interp:
     # ---------------------------------------------------------------- statements
     def block(self, stmts):
         for st in stmts:
+            self._cur_stmt = (self.frame().relpath, st.lineno)
             m = getattr(self, "s_" + type(st).__name__, None)
             if m is None:
                 raise Unsupported("statement %s at %s:%d" % (type(st).__name__, self.frame().relpath, st.lineno))
